@@ -334,9 +334,11 @@ def run(chk) -> None:
 
 
 MANIFEST_ENTRY = {
-    "text": "Static decision on the current source of transformer.py: the CLI feeds the library the text of the input file (not its path), writes exactly the str component of the library result, and opens the output only after "
-    "reading the input; the library writes only the target column of each row (append for a new item), returns the input itself on every early exit, applies a first-seen mapping that it returns, and edits the lists the "
-    "writer serialises. The frame condition and the CLI path are never executed by the suite; here they are facts about every path of the code.",
+    "text": "Static decision on the current source of transformer.py: copy_from_to, replace_value and main are evaluated from their ast (nothing is imported or run) on one representative per class of their inputs in a stub world "
+    "(dict file system, model of the mmcif adapter / container / DataCategory, argparse model). Facts decided: a missing block / category / source item returns the input text itself; every row's target becomes its source "
+    "('.' and '?' included), a new item is appended, nothing else changes and the written document contains the edit; the first-seen mapping is applied and returned, and an alphabet with too few symbols fails or stays total "
+    "and injective; no state survives a call; the CLI writes exactly the text component of the library result for the content of the input file, also when output and input are the same path, and touches nothing without an action. "
+    "The frame condition and the CLI path are never executed by the suite; here they are facts about every statement of the code (coverage obligation).",
     "note": "Trusted: mmcif library re-serialisation of untouched categories and its list-returning accessors.",
     "technique": "static analysis: whole-function evaluation of the ast on input-class representatives in a stub world (files, mmcif objects, argparse), coverage obligation; pinned-form rules as fallback",
 }
